@@ -280,11 +280,11 @@ EXTRA = {
     "C07": " Also: constants that define a named correlation are held to 1e-9, rho_g B_g / gravity is one number over the whole gas "
            "lattice (1e-11), pressures to p_r = 30 and 20 000 psia, temperatures to 650 F, every oil with a positive bubble point.",
     "C08": " Also: integer-typed tables, pandas Series and row-filtered frames as input, quadrature calls for neighbours that share "
-           "(T, p, gravity) but not the pseudocritical point before each real call, each contaminant varied alone.",
+           "(T, p, gravity) but not the pseudocritical point before each real call, each contaminant varied alone, finely resolved non-uniform windows at 6000 / 9000 psia for the stand-alone transform.",
     "C09": " Also: non-uniform pressure grids and frames with a non-default index, rescale rejections (outside the table, missing "
-           "column), any exception type counts as 'an error', integer-typed whole-psi pressures through m_scaled_func.",
-    "C10": " The alphabet now has 15 (ideal: 11) letters plus setF/setP: grids A, A' (A stretched by 4 ppm), B (A's length and end "
-           "points), C, D (to depletion), E (single entry), two scheduled runs, a simulate that is rejected for a wrong-length schedule "
+           "column), any exception type counts as 'an error', integer-typed whole-psi pressures through m_scaled_func, the tables in unit systems with c mu ten decades smaller / larger.",
+    "C10": " The alphabet now has 16 (ideal: 12) letters plus setF/setP: grids A, A' (A stretched by 4 ppm), B (A's length and end "
+           "points), C, D (to depletion), E (single entry), F (A's length, depleted after a few steps), two scheduled runs, a simulate that is rejected for a wrong-length schedule "
            "(must leave no trace) and one rejected for a pressure far outside the table, resim (the stored time array passed back) and bufB (the stored array overwritten with grid B and passed again), rf, rf(density), interpolator; also a two-object product exploration (same / mixed class, two "
            "single-phase fluids), a 60-node 128-level configuration, every history up to depth 2/3 over {simA, simB, setF, setP, rf, rf(density), interpolator} in "
            "fresh interpreters in several orders (process-global state), and full-edge conformance with the TLC-checked model.",
@@ -297,7 +297,7 @@ EXTRA = {
     "C14": " Also: one bad record among a hundred, cancelling sums, residuals leaving 1e-9 .. 0.04 of mobile pore space, connate "
            "water that is not a short decimal, the helper's rows fed back through relative_permeabilities, reversed / sub- / mixed batches (a record's values depend on that record alone).",
     "C15": " Also: initial pressure in the first / last cell and at the second / last node, mobilities of 1e-12, factors 1e-9 / 1e9, "
-           "a span where no phase flows (exactly flat), the caller's table is not modified.",
+           "a span where no phase flows (exactly flat), the caller's table is not modified, the mobility factor through the viscosities (other units), a call on another grid with the table's length and end points.",
     "C16": " Also: other saturations / array-valued Sw on the same PVT functions and the first call repeated, a family whose stored "
            "mass falls with pressure, from_table on sorted / filtered DataFrames.",
     "C17": " Also: a nearly uniform ('drift') grid and epoch-sized origins in the shift lattice, the interpolator on 1200-level runs "
@@ -306,9 +306,9 @@ EXTRA = {
     "C18": " Also: the residual reported at the fitted parameters equals M x library forward model - production (recorder patched at "
            "lmfit.Minimizer.__init__), near-equal tau / M / p_initial call pairs, a late build-up, index variants, NaN rates, a second fluid table at the same initial pressure, permuted production columns.",
     "C19": " Also: pressures 1 .. 19 000 psia, full 14 000-psia tables (default maximum), each contaminant varied alone in the "
-           "histories, maxima just above a multiple of 10, normalised-looking fluid-type strings.",
+           "histories, maxima just above a multiple of 10, normalised-looking fluid-type strings, facade calls on 1500 / 4097 unordered pressures.",
     "C20": " Also: both entry points (transform, transform_non_affine) of the pair obtained from the Axes' own scale, the Axes' "
-           "data -> display -> data round trip, x_max / y_max / plot_kwargs / own axes, 5001-level runs with the default stride.",
+           "data -> display -> data round trip, x_max / y_max / plot_kwargs / own axes, 5001-level runs with the default stride, 240 / 1501-level runs with strides 1-3 (hundreds of profiles).",
 }
 
 BASELINE_OFF = ("cd /repo && env -u BLUEBONNET_VERIF /venv/bin/python -m pytest -ra -q "
